@@ -105,6 +105,8 @@ def oracle(scn, trace):
                 K = last.a.cls if last is not None else None
                 if K == "UNKNOWN" or K is None:
                     K = "UNKNOWN"
+                if last is not None and last.a.end is not None and last.a.end.get("etype") == "SimTimeoutError":
+                    K = "TRANSIENT"   # default_classifier (no retry component): any TimeoutError is TRANSIENT
             else:
                 K = rec[-1].a.fclass if rec else None
             exp = ("record_failure", K)
